@@ -1,6 +1,6 @@
 /-
   C05, character level, TIGHT regions, part 3 (generated from `Props/C05/TokGapsProof.lean` by
-  renaming): `tokGaps_next`, `tokGaps_gather`, `CovOK`, `tokLogX`, `tokLogGL` over the tight
+  renaming): `tokGaps_next`, `tokGaps_gather`, `CovOK0`, `tokLogX`, `tokLogGL` over the tight
   `GapPost` / `GathQ`.
 -/
 import Bashlex.Props.C05.FT2
@@ -162,7 +162,7 @@ theorem lastNL_of_nl {L : Str} (h : NL L) : LastNL L := by
   omega
 
 /-- what the proof of `TokLogC (TLogX C)` needs of `C` -/
-structure CovOK (C : List Token → Local → Env → Prop) : Prop where
+structure CovOK0 (C : List Token → Local → Env → Prop) : Prop where
   /-- after `token()` -/
   next : ∀ {ts : List Token} {t : Token} {L : Str} {i0 len f : Nat} {l0 l : Local} {e0 e : Env},
     C ts l0 e0 → (tapeOf l0 e0).line = L → (tapeOf l0 e0).idx = i0 → GapPost L i0 t l e →
@@ -239,9 +239,9 @@ theorem cov_same {ts ts' : List Token} {l0 l : Local} {e0 e : Env} (hc : Cov ts 
   · exact Or.inr (Or.inl h)
   · exact Or.inr (Or.inr (h3 p h))
 
-theorem covOK_cov : CovOK Cov := ⟨cov_next, cov_gather, cov_same⟩
+theorem covOK_cov : CovOK0 Cov := ⟨cov_next, cov_gather, cov_same⟩
 
-theorem covOK_covL (L0 : Str) : CovOK (CovL L0) := by
+theorem covOK_covL (L0 : Str) : CovOK0 (CovL L0) := by
   refine ⟨?_, ?_, ?_⟩
   · intro ts t L i0 len f l0 l e0 e hc h1 h2 hg hs
     obtain ⟨c1, c2, c3⟩ := hc
@@ -274,6 +274,35 @@ theorem covOK_covL (L0 : Str) : CovOK (CovL L0) := by
     · rw [h2]; exact c3 hx
     · rw [c1] at h2; exact Nat.le_of_lt h2
 
+/-- what the proof of `TokLogC (TLogX C)` needs of `C` (the closure properties of `CovOK0`, with
+    what is KNOWN of a dead state -- the cursor beyond the end of the line after the non-strict
+    skip over a missing here-document -- made explicit: `gatherheredocuments` is entered inside the
+    line; in a dead state `token()` delivers the end-of-input token and the log grows by it
+    only) -/
+structure CovOK (C : List Token → Local → Env → Prop) : Prop where
+  next : ∀ {ts : List Token} {t : Token} {L : Str} {i0 len f : Nat} {l0 l : Local} {e0 e : Env},
+    C ts l0 e0 → (tapeOf l0 e0).line = L → (tapeOf l0 e0).idx = i0 → GapPost L i0 t l e →
+    StoreStep len f false l0.store l.store → C (ts ++ [t]) l e
+  gather : ∀ {ts : List Token} {L : Str} {c len f : Nat} {l0 l : Local} {e0 e : Env},
+    C ts l0 e0 → (tapeOf l0 e0).line = L → (tapeOf l0 e0).idx = c → c ≤ L.length →
+    GathQ L [] c l e → StoreStep len f true l0.store l.store → C ts l e
+  same : ∀ {ts : List Token} {l0 l : Local} {e0 e : Env}, C ts l0 e0 →
+    (tapeOf l e).line = (tapeOf l0 e0).line →
+    ((tapeOf l e).idx = (tapeOf l0 e0).idx ∨
+      ((tapeOf l0 e0).line.length < (tapeOf l0 e0).idx ∧
+        (tapeOf l0 e0).line.length < (tapeOf l e).idx)) →
+    (∀ p, InBody l0.store p → InBody l.store p) → C ts l e
+  deadEof : ∀ {ts : List Token} {l0 l : Local} {e0 e : Env}, C ts l0 e0 →
+    (tapeOf l e).line = (tapeOf l0 e0).line →
+    ((tapeOf l0 e0).line.length < (tapeOf l0 e0).idx ∧
+        (tapeOf l0 e0).line.length < (tapeOf l e).idx) →
+    (∀ p, InBody l0.store p → InBody l.store p) → C (ts ++ [eofTok]) l e
+
+theorem CovOK0.toNew {C : List Token → Local → Env → Prop} (h : CovOK0 C) : CovOK C :=
+  ⟨h.next, fun hc h1 h2 _ hg hs => h.gather hc h1 h2 hg hs,
+   fun hc h1 h2 h3 => h.same hc h1 (h2.imp (fun h => ⟨h, rfl⟩) id) h3 (fun t ht => ht),
+   fun hc h1 hd h3 => h.same hc h1 (Or.inr hd) h3 (fun t ht => List.mem_append_left _ ht)⟩
+
 /-- the raw facts about `token()` from a fixed state satisfying `TI` -/
 theorem next_raw (len f : Nat) (l0 : Local) (e0 : Env) (hti : TI len f l0 e0)
     (hlen : len + 1 < 1073741824) :
@@ -281,7 +310,7 @@ theorem next_raw (len f : Nat) (l0 : Local) (e0 : Env) (hti : TI len f l0 e0)
       (fun t l e => GapPost (tapeOf l0 e0).line (tapeOf l0 e0).idx t l e ∨
         (((tapeOf l0 e0).line.length < (tapeOf l0 e0).idx ∧
           (tapeOf l0 e0).line.length < (tapeOf l e).idx) ∧
-          (tapeOf l e).line = (tapeOf l0 e0).line ∧ l.store = l0.store)) := by
+          (tapeOf l e).line = (tapeOf l0 e0).line ∧ l.store = l0.store ∧ t = eofTok)) := by
   obtain ⟨L, ⟨hK, hnl⟩, hp, hc⟩ := hti
   rcases hc with hc | hc
   · obtain ⟨a1, a2, a3, a4, a5, a6, a7⟩ := hc
@@ -294,15 +323,16 @@ theorem next_raw (len f : Nat) (l0 : Local) (e0 : Env) (hti : TI len f l0 e0)
   · refine satS_of_ht (HT.weaken (nextToken_dead (L := L) (sr := l0.store) (rk := l0.redirstack))
       ?_ ?_ (fun _ h => h))
     · rintro l e ⟨rfl, rfl⟩; exact ⟨hc, rfl, rfl⟩
-    · rintro t l e ⟨_, hd, hs, _⟩
+    · rintro t l e ⟨heof, hd, hs, _⟩
       right
-      exact ⟨⟨by rw [hc.1]; exact hc.2.1, by rw [hc.1]; exact hd.2.1⟩, by rw [hd.1, hc.1], hs⟩
+      exact ⟨⟨by rw [hc.1]; exact hc.2.1, by rw [hc.1]; exact hd.2.1⟩, by rw [hd.1, hc.1], hs, heof⟩
 
 /-- the raw facts about `gatherheredocuments` from a fixed state satisfying `TI` -/
 theorem gather_raw (len f : Nat) (l0 : Local) (e0 : Env) (hti : TI len f l0 e0)
     (hlen : len + 1 < 1073741824) :
     SatS gatherheredocuments (fun l e => l = l0 ∧ e = e0)
-      (fun _ l e => GathQ (tapeOf l0 e0).line [] (tapeOf l0 e0).idx l e ∨
+      (fun _ l e => (GathQ (tapeOf l0 e0).line [] (tapeOf l0 e0).idx l e ∧
+          (tapeOf l0 e0).idx ≤ (tapeOf l0 e0).line.length) ∨
         (((tapeOf l0 e0).line.length < (tapeOf l0 e0).idx ∧
           (tapeOf l0 e0).line.length < (tapeOf l e).idx) ∧
           (tapeOf l e).line = (tapeOf l0 e0).line ∧ l.store = l0.store)) := by
@@ -314,7 +344,7 @@ theorem gather_raw (len f : Nat) (l0 : Local) (e0 : Env) (hti : TI len f l0 e0)
     · rintro l e ⟨rfl, rfl⟩
       exact ⟨⟨a1, rfl, a2, a3, a4⟩, rfl, rfl⟩
     · intro t l e h
-      left; rw [a1]; exact h
+      left; rw [a1]; exact ⟨h, a2⟩
   · refine satS_of_ht (HT.weaken (gather_dead (L := L) (ps := []) (sr := l0.store)
       (rk := l0.redirstack)) ?_ ?_ (fun _ h => h))
     · rintro l e ⟨rfl, rfl⟩; exact ⟨hc, rfl, rfl⟩
@@ -338,10 +368,10 @@ theorem tokLogX {C : List Token → Local → Env → Prop} (hC : CovOK C) : Tok
     · refine SatS.post (SatS.and hA (next_raw len f l0 e0 htl.1 hlen)) ?_
       rintro t l e ⟨⟨a, b, h1, h2, h3, h4⟩, hraw⟩
       refine ⟨a, b, h1, h2, ⟨h3, fun _ => ?_⟩, h4⟩
-      rcases hraw with hg | ⟨hd1, hd2, hd3⟩
+      rcases hraw with hg | ⟨hd1, hd2, hd3, hd4⟩
       · exact hC.next (hcov hlen) rfl rfl hg (by rw [hst]; exact h4)
-      · exact hC.same (hcov hlen) hd2 (Or.inr hd1) (fun p h => by rw [hd3]; exact h)
-          (fun t ht => List.mem_append_left _ ht)
+      · rw [hd4]
+        exact hC.deadEof (hcov hlen) hd2 hd1 (fun p h => by rw [hd3]; exact h)
     · refine SatS.post hA ?_
       rintro t l e ⟨a, b, h1, h2, h3, h4⟩
       exact ⟨a, b, h1, h2, ⟨h3, fun h => absurd h hlen⟩, h4⟩
@@ -358,22 +388,22 @@ theorem tokLogX {C : List Token → Local → Env → Prop} (hC : CovOK C) : Tok
       · refine SatS.post (SatS.and hA (gather_raw len f l0 e0 htl.1 hlen)) ?_
         rintro _ l e ⟨⟨h3, h4⟩, hraw⟩
         refine ⟨⟨h3, fun _ => ?_⟩, h4⟩
-        rcases hraw with hg | ⟨hd1, hd2, hd3⟩
-        · exact hC.gather (hcov hlen) rfl rfl hg (by rw [hst]; exact h4)
+        rcases hraw with ⟨hg, hcL⟩ | ⟨hd1, hd2, hd3⟩
+        · exact hC.gather (hcov hlen) rfl rfl hcL hg (by rw [hst]; exact h4)
         · exact hC.same (hcov hlen) hd2 (Or.inr hd1)
-            (fun p h => by rw [hd3]; exact h) (fun t ht => ht)
+            (fun p h => by rw [hd3]; exact h)
       · refine SatS.post hA ?_
         rintro _ l e ⟨h3, h4⟩
         exact ⟨⟨h3, fun h => absurd h hlen⟩, h4⟩
     · -- `queue`
       rintro len f l e cell kill ⟨h1, h2⟩ h3 h4 h5
       refine ⟨(tokLog.act ts).queue len f l e cell kill h1 h3 h4 h5, fun hlen => ?_⟩
-      refine hC.same (h2 hlen) rfl (Or.inl ⟨rfl, rfl⟩) (fun p h => ?_) (fun t ht => ht)
+      refine hC.same (h2 hlen) rfl (Or.inl rfl) (fun p h => ?_)
       exact h.mono (fun c hc b hb => ⟨c, List.mem_append_left _ hc, hb⟩)
     · -- `ps`
       rintro len f l e ps ⟨h1, h2⟩
       exact ⟨(tokLog.act ts).ps len f l e ps h1, fun hlen =>
-        hC.same (h2 hlen) rfl (Or.inl ⟨rfl, rfl⟩) (fun p h => h) (fun t ht => ht)⟩
+        hC.same (h2 hlen) rfl (Or.inl rfl) (fun p h => h)⟩
     · -- `nested`
       intro d len f st s b
       rintro l e ⟨⟨htl, hcov⟩, hst⟩
@@ -390,10 +420,10 @@ theorem tokLogX {C : List Token → Local → Env → Prop} (hC : CovOK C) : Tok
         refine ⟨⟨hA.1, fun hlen => ?_⟩, hA.2⟩
         have ht : tapeOf ({ l with ps := l'.ps } : Local) e' = tapeOf l e := by
           rw [tapeOf_env hE.1.symm]; rfl
-        exact hC.same (hcov hlen) (by rw [ht]) (Or.inl ⟨by rw [ht], rfl⟩)
-          (fun p h => h) (fun t ht => ht)
+        exact hC.same (hcov hlen) (by rw [ht]) (Or.inl (by rw [ht]))
+          (fun p h => h)
 
-theorem tokLogGL (L0 : Str) : TokLogC (TLogGL L0) := tokLogX (covOK_covL L0)
+theorem tokLogGL (L0 : Str) : TokLogC (TLogGL L0) := tokLogX (covOK_covL L0).toNew
 
 theorem initState_tape {s : Str} {l : Local} {e : Env} (hi : InitState s l e) :
     tapeOf l e = Tape.ofInput s := by
@@ -415,7 +445,7 @@ theorem tokLogGL_init (s : Str) (l : Local) (e : Env) (hi : InitState s l e) :
 
 /-- **the hypothesis `TokLog` holds of the real tokenizer, with coverage** -/
 theorem tokLogG : TokLog TLogG := by
-  have h := tokLogX covOK_cov
+  have h := tokLogX covOK_cov.toNew
   refine ⟨h.next, h.act, ?_⟩
   intro s l e hi
   refine ⟨tokLog.init s l e hi, fun _ => ?_⟩
